@@ -4,6 +4,7 @@
   the completions produced so far are a permutation of the ids given to initiating calls.
 -/
 import SimVerif.Lemmas.HandlersTcpFns
+import SimVerif.Lemmas.HandlersConns
 import SimVerif.Lemmas.HandlersUdpSys
 
 namespace SimVerif
@@ -11,6 +12,7 @@ namespace SimVerif
 structure h4_TInv (s : HdS) : Prop where
   wf   : TWf s.n
   perm : (allTcpIds s.n ++ s.parked ++ s.ids).Perm s.started
+  conns : ConnsOk s.n
 
 namespace HL
 
@@ -116,7 +118,7 @@ theorem tcons_runWrite (tp : TParams) (n : NetSt) (name : String) (h? : Option N
 theorem parkedOf_eq (l : List NEff) : parkedOf l = parkedOf l := rfl
 
 /-- every label, under its precondition, conserves handler ids -/
-theorem tcp_label_conserve (tp : TParams) (s : HdS) (l : h4_HLbl) (hok : HTS.ok s l) :
+theorem tcp_label_conserve (tp : TParams) (s : HdS) (l : h4_HLbl) (hok : HTS.ok s l) (hv : ConnsOk s.n) :
     ∃ new, TCons s.n (l.eff tp s.n).1 (l.eff tp s.n).2 new
       ∧ (new ++ (HTS.step tp s l).parked).Perm (l.newId?.toList ++ s.parked) := by
   cases l with
@@ -140,19 +142,19 @@ theorem tcp_label_conserve (tp : TParams) (s : HdS) (l : h4_HLbl) (hok : HTS.ok 
   | reopen now name v4 => exact ⟨[], tcons_tcpOpen s.n now name v4, by simp [HTS.step, h4_HLbl.newId?]⟩
   | bind name ep => exact ⟨[], tcons_tcpBind s.n name ep, by simp [HTS.step, h4_HLbl.newId?]⟩
   | accept now name op =>
-    obtain ⟨⟨s0, hs0, hacc⟩, hfresh, hv⟩ := hok
-    refine ⟨[op.h], tcons_accAsyncAccept s.n now name op s0 hs0 hacc hfresh hv, ?_⟩
+    obtain ⟨⟨s0, hs0, hacc⟩, hfresh⟩ := hok
+    refine ⟨[op.h], tcons_accAsyncAccept s.n now name op s0 hs0 hacc hfresh (hv.ok name), ?_⟩
     cases op <;> simp [HTS.step, h4_HLbl.newId?, AcceptOp.h]
   | listen name qs => exact ⟨[], tcons_accListen s.n name qs, by simp [HTS.step, h4_HLbl.newId?]⟩
   | accCancel name => exact ⟨[], tcons_accCancel s.n name, by simp [HTS.step, h4_HLbl.newId?]⟩
-  | accClose now name => exact ⟨[], tcons_accClose s.n now name hok, by simp [HTS.step, h4_HLbl.newId?]⟩
+  | accClose now name => exact ⟨[], tcons_accClose s.n now name (hv.ok name), by simp [HTS.step, h4_HLbl.newId?]⟩
   | incoming now name p =>
     refine ⟨[], ?_, by simp [HTS.step, h4_HLbl.newId?]⟩
     simp only [h4_HLbl.eff]
     split
     · exact TCons.refl _
     · split
-      · exact tcons_accIncoming s.n now name p hok.1 hok.2
+      · exact tcons_accIncoming s.n now name p (hv.ok name) hok
       · exact tcons_tcpIncoming tp s.n now name p
   | dropped name p => exact ⟨[], tcons_tcpPacketDropped tp s.n name p, by simp [HTS.step, h4_HLbl.newId?]⟩
   | resendOne now name =>
@@ -168,8 +170,8 @@ theorem tcp_label_conserve (tp : TParams) (s : HdS) (l : h4_HLbl) (hok : HTS.ok 
     exact (List.perm_cons_erase hok).symm
 
 theorem TInv_step (tp : TParams) (s : HdS) (l : h4_HLbl) (hI : h4_TInv s) (hok : HTS.ok s l) : h4_TInv (HTS.step tp s l) := by
-  obtain ⟨new, hc, hp⟩ := tcp_label_conserve tp s l hok
-  refine ⟨hc.wf hI.wf, ?_⟩
+  obtain ⟨new, hc, hp⟩ := tcp_label_conserve tp s l hok hI.conns
+  refine ⟨hc.wf hI.wf, ?_, cok_label tp s.n l (fun now name p hl => by subst hl; exact hok) hI.conns⟩
   have h1 := hI.perm
   refine List.perm_iff_count.mpr (fun z => ?_)
   have h2 := hc.cnt hI.wf z
@@ -220,6 +222,15 @@ theorem accConnsOkb_sound {n : NetSt} {name : String} (h : accConnsOkb n name = 
   rw [List.all_eq_true] at h
   simpa using h c hc
 
+/-- decidable form of `ConnsOk` (for concrete initial tables) -/
+def ConnsOkb (n : NetSt) : Bool := n.tcps.all (fun e => accConnsOkb n e.1)
+
+theorem ConnsOkb_sound {n : NetSt} (h : ConnsOkb n = true) : ConnsOk n := by
+  refine ⟨fun name s a hs ha => ?_⟩
+  unfold ConnsOkb at h
+  rw [List.all_eq_true] at h
+  exact accConnsOkb_sound (h (name, s) (HL.tcp_lookup_mem hs)) s a hs ha
+
 def HTS.okb (s : HdS) : h4_HLbl → Bool
   | .newSock name _ _ => (s.n.tcp? name).isNone
   | .connect _ name _ _ =>
@@ -230,10 +241,7 @@ def HTS.okb (s : HdS) : h4_HLbl → Bool
   | .accept _ name op =>
     (match s.n.tcp? name with | some s0 => s0.acc.isSome | none => false)
       && (match op with | .fresh _ nn => (s.n.tcp? nn).isNone | .into _ _ _ => true)
-      && accConnsOkb s.n name
-  | .accClose _ name => accConnsOkb s.n name
-  | .incoming _ name p =>
-    accConnsOkb s.n name && (match p.chan with | some c => decide (c < s.n.chans.length) | none => true)
+  | .incoming _ _ p => (match p.chan with | some c => decide (c < s.n.chans.length) | none => true)
   | .refusedFired h => s.parked.contains h
   | _ => true
 
@@ -249,17 +257,15 @@ theorem HTS.okb_sound {s : HdS} {l : h4_HLbl} (h : HTS.okb s l = true) : HTS.ok 
       simpa [ho] using h
   case accept now name op =>
     simp only [Bool.and_eq_true] at h
-    obtain ⟨⟨h1, h2⟩, h3⟩ := h
-    refine ⟨?_, ?_, accConnsOkb_sound h3⟩
+    obtain ⟨h1, h2⟩ := h
+    refine ⟨?_, ?_⟩
     · cases hs : s.n.tcp? name with
       | none => rw [hs] at h1; simp at h1
       | some s0 => rw [hs] at h1; exact ⟨s0, rfl, h1⟩
     · intro hd nn e; subst e; simpa using h2
-  case accClose now name => exact accConnsOkb_sound h
   case incoming now name p =>
-    simp only [Bool.and_eq_true] at h
-    refine ⟨accConnsOkb_sound h.1, fun c hc => ?_⟩
-    have := h.2; rw [hc] at this; simpa using this
+    intro c hc
+    rw [hc] at h; simpa using h
   case refusedFired hd => simpa using h
 
 def HTS.okRunb (tp : TParams) : HdS → List h4_HLbl → Bool
